@@ -10562,6 +10562,789 @@ GENERATORS["RealignWorker"] = gen_realign_worker
 
 
 # ---------------------------------------------------------------------------------------------------------
+# The command-line layer: gaftools/__main__.py main (the two top-level options, the loop that builds one sub-parser per module of
+# gaftools/cli, and everything after `parse_args`), gaftools/args.py HelpfulArgumentParser.error (the exit status), and of every module
+# of gaftools/cli its `add_arguments` (one `ArgDecl` per `add_argument` call, keyword by keyword), its `validate` (test by test) and its
+# `main` (the function it calls, the way the keyword arguments are passed, that function's parameters)
+CLIARGS_PRELUDE = r'''/-! %s -/
+set_option linter.unusedVariables false
+namespace Gaftools.Gen.CliArgs
+
+/-- a Python value that can sit in the `argparse.Namespace` -/
+inductive PyV where
+  | none
+  | str (s : String)
+  | int (i : Int)
+  | bool (b : Bool)
+  | list (l : List String)
+  | stdoutObject                    -- `sys.stdout`
+  | moduleObj (name : String)       -- the imported module `gaftools.cli.<name>`
+  | parserObj (name : String)       -- the sub-parser made for that module
+  deriving DecidableEq, Repr
+
+/-- `bool(v)` -/
+def PyV.truthy : PyV → Bool
+  | .none => false
+  | .str s => s != ""
+  | .int i => i != 0
+  | .bool b => b
+  | .list l => !l.isEmpty
+  | .stdoutObject => true
+  | .moduleObj _ => true
+  | .parserObj _ => true
+
+/-- the attributes of a namespace, in the order in which they were set (`vars(args)`) -/
+abbrev Ns := List (String × PyV)
+
+/-- one `add_argument(...)` call, keyword by keyword (`help`, `metavar`, `version` only change texts and are dropped);
+    `none` = the keyword is not given -/
+structure ArgDecl where
+  flags : List String
+  dest : Option String := none
+  default : Option PyV := none
+  action : Option String := none
+  nargs : Option String := none
+  type : Option String := none
+  required : Option Bool := none
+  deriving DecidableEq, Repr
+
+/-- raising operations: `.error exc` -/
+abbrev M := Except String
+
+/-- `args.<k>` -/
+def attr (ns : Ns) (k : String) : M PyV :=
+  match ns.find? (fun e => e.1 == k) with
+  | some e => .ok e.2
+  | none => .error "AttributeError"
+
+def truthyM (v : M PyV) : M Bool := v.map PyV.truthy
+/-- `a and b` as a test: `b` is looked at only when `a` is true -/
+def andM (a b : M Bool) : M Bool := a >>= fun x => if x then b else pure false
+def orM (a b : M Bool) : M Bool := a >>= fun x => if x then pure true else b
+def notM (a : M Bool) : M Bool := a.map (fun x => !x)
+/-- `v in [l₀, l₁, …]` -/
+def inM (v : M PyV) (l : List PyV) : M Bool := v.map (fun x => l.contains x)
+def eqM (v w : M PyV) : M Bool := v >>= fun x => w.map (fun y => x == y)
+def isNoneM (v : M PyV) : M Bool := v.map (fun x => x == .none)
+
+/-- how a `validate(args, parser)` ends: `.ok none` it returns, `.ok (some msg)` it calls `parser.error(msg)` (which does not
+    come back), `.error exc` it raises -/
+abbrev VRes := M (Option String)
+def ifM (c : M Bool) (t e : VRes) : VRes := c >>= fun x => if x then t else e
+
+/-- what `__main__.main` learns of a module of `gaftools/cli` -/
+structure Module where
+  name : String
+  arguments : List ArgDecl                -- `add_arguments(parser)`
+  validate : Option (Ns → VRes)           -- `none`: the module has no `validate`
+  entry : String                          -- `main(args)` is `<entry>(**vars(args))`
+  entryParams : List (String × Bool)      -- the parameters of `<entry>` (name, has a default)
+
+/-- something that holds a module or a parser: `args.<a>` or the local variable `x` -/
+inductive Ref where
+  | attr (a : String)
+  | loc (x : String)
+  deriving DecidableEq, Repr
+
+/-- the statements of `__main__.main` after `parse_args` -/
+inductive Step where
+  | readAttr (a : String)                              -- `f(args.<a>)` for a helper `f` of `__main__` (the logging set-up)
+  | requireAttr (a msg : String)                       -- `if not hasattr(args, "<a>"): parser.error(msg)` `else:` what follows
+  | bind (x a : String)                                -- `<x> = args.<a>`
+  | ifHas (m : Ref) (fn : String) (body : List Step)   -- `if hasattr(<m>, "<fn>"):` body
+  | callMethod (m : Ref) (fn : String) (parser : Ref)  -- `<m>.<fn>(args, <parser>)`
+  | del (a : String)                                   -- `del args.<a>`
+  | callMain (m : Ref) (exc : String) (status : Nat)   -- `try: <m>.main(args)` `except <exc>: … sys.exit(status)`
+
+/-- how `__main__.main` ends -/
+inductive Outcome where
+  | usage (msg : String)                                             -- `parser.error(msg)`
+  | raised (exc : String)                                            -- an exception nobody catches
+  | call (fn : String) (kwargs : Ns) (exc : String) (status : Nat)   -- the entry point `fn(**kwargs)` runs; `exc` from it ends the process with `status`
+  | returned                                                         -- `main` returns without having called an entry point
+  deriving DecidableEq, Repr
+
+structure Env where
+  args : Ns
+  locals : Ns
+
+def Env.ref (e : Env) : Ref → M PyV
+  | .attr a => attr e.args a
+  | .loc x => match e.locals.find? (fun p => p.1 == x) with
+      | some p => .ok p.2
+      | none => .error "UnboundLocalError"
+
+def moduleOf (mods : List Module) : PyV → Option Module
+  | .moduleObj n => mods.find? (fun m => m.name == n)
+  | _ => none
+
+/-- `hasattr(<module>, fn)` for the three functions `__main__` knows of -/
+def Module.has (m : Module) (fn : String) : Bool :=
+  fn == "add_arguments" || fn == "main" || (fn == "validate" && m.validate.isSome)
+
+mutual
+/-- one statement: `.ok env` goes on, `.error o` the process (or `main`) ends with `o` -/
+def runStep (pkg : String) (mods : List Module) : Step → Env → Except Outcome Env
+  | .readAttr a, e => match attr e.args a with
+      | .ok _ => .ok e
+      | .error x => .error (.raised x)
+  | .requireAttr a msg, e => if e.args.any (fun p => p.1 == a) then .ok e else .error (.usage msg)
+  | .bind x a, e => match attr e.args a with
+      | .ok v => .ok { e with locals := (x, v) :: e.locals.filter (fun p => p.1 != x) }
+      | .error x => .error (.raised x)
+  | .ifHas m fn body, e => match e.ref m with
+      | .error x => .error (.raised x)
+      | .ok v => match moduleOf mods v with
+          | none => .error (.raised "AttributeError")
+          | some md => if md.has fn then runSteps pkg mods body e else .ok e
+  | .callMethod m fn parser, e => match e.ref m, e.ref parser with
+      | .ok v, .ok (.parserObj _) => match moduleOf mods v with
+          | none => .error (.raised "AttributeError")
+          | some md =>
+            if fn == "validate" then
+              match md.validate with
+              | none => .error (.raised "AttributeError")
+              | some f => match f e.args with
+                  | .ok none => .ok e
+                  | .ok (some msg) => .error (.usage msg)
+                  | .error x => .error (.raised x)
+            else .error (.raised "AttributeError")
+      | .error x, _ => .error (.raised x)
+      | _, .error x => .error (.raised x)
+      | _, _ => .error (.raised "AttributeError")
+  | .del a, e => if e.args.any (fun p => p.1 == a) then .ok { e with args := e.args.filter (fun p => p.1 != a) }
+                 else .error (.raised "AttributeError")
+  | .callMain m exc status, e => match e.ref m with
+      | .error x => .error (.raised x)
+      | .ok v => match moduleOf mods v with
+          | none => .error (.raised "AttributeError")
+          | some md => .error (.call (pkg ++ "." ++ md.name ++ "." ++ md.entry) e.args exc status)
+def runSteps (pkg : String) (mods : List Module) : List Step → Env → Except Outcome Env
+  | [], e => .ok e
+  | s :: rest, e => match runStep pkg mods s e with
+      | .ok e' => runSteps pkg mods rest e'
+      | .error o => .error o
+end
+'''
+
+
+def _ca_str(s):
+    if not isinstance(s, str):
+        raise Untranslatable("string expected, got %r" % (s,))
+    out = []
+    for c in s:
+        if c == '"':
+            out.append('\\"')
+        elif c == "\\":
+            out.append("\\\\")
+        elif c == "\t":
+            out.append("\\t")
+        elif c == "\n":
+            out.append("\\n")
+        elif 32 <= ord(c) < 127:
+            out.append(c)
+        else:
+            raise Untranslatable("character %r in a string constant" % c)
+    return '"%s"' % "".join(out)
+
+
+def _ca_nodoc(stmts):
+    return [s for s in stmts if not (isinstance(s, ast.Expr) and isinstance(s.value, ast.Constant) and isinstance(s.value.value, str))]
+
+
+def _ca_plain_params(fn, n=None):
+    a = fn.args
+    if a.posonlyargs or a.vararg or a.kwarg or a.kwonlyargs:
+        raise Untranslatable("%s: parameter kinds" % fn.name)
+    names = [x.arg for x in a.args]
+    if n is not None and (len(names) != n or a.defaults):
+        raise Untranslatable("%s: %d plain parameters expected" % (fn.name, n))
+    return names
+
+
+def _ca_imports(mod):
+    """name -> what it is bound to by the module-level imports ('sys', 'gaftools.cli', ('.args', 'HelpfulArgumentParser'), …)"""
+    env = {}
+    for n in mod.body:
+        if isinstance(n, ast.Import):
+            for al in n.names:
+                env[al.asname or al.name.split(".")[0]] = al.name if al.asname else al.name.split(".")[0]
+        elif isinstance(n, ast.ImportFrom):
+            for al in n.names:
+                env[al.asname or al.name] = ("." * n.level + (n.module or ""), al.name)
+    return env
+
+
+def _ca_lit(e, imports):
+    """a value that may be stored in the namespace (a `default=`), or compared with, as a `PyV`"""
+    if isinstance(e, ast.Constant):
+        v = e.value
+        if v is None:
+            return ".none"
+        if isinstance(v, bool):
+            return ".bool %s" % ("true" if v else "false")
+        if isinstance(v, int):
+            return ".int (%d)" % v
+        if isinstance(v, str):
+            return ".str %s" % _ca_str(v)
+        raise Untranslatable("constant %r" % (v,))
+    if isinstance(e, ast.List):
+        items = []
+        for x in e.elts:
+            if not (isinstance(x, ast.Constant) and isinstance(x.value, str)):
+                raise Untranslatable("list element %s" % ast.dump(x))
+            items.append(_ca_str(x.value))
+        return ".list [%s]" % ", ".join(items)
+    if (isinstance(e, ast.Attribute) and isinstance(e.value, ast.Name) and imports.get(e.value.id) == "sys" and e.attr == "stdout"):
+        return ".stdoutObject"
+    raise Untranslatable("value %s" % ast.dump(e)[:80])
+
+
+_CA_TEXT_ONLY = {"help", "metavar", "version"}
+
+
+def _ca_decl(call, imports):
+    if not call.args:
+        raise Untranslatable("add_argument without a name")
+    flags = []
+    for a in call.args:
+        if not (isinstance(a, ast.Constant) and isinstance(a.value, str) and a.value):
+            raise Untranslatable("add_argument name %s" % ast.dump(a)[:60])
+        flags.append(a.value)
+    dashed = [f.startswith("-") for f in flags]
+    if not (all(dashed) or (len(flags) == 1 and not dashed[0])):
+        raise Untranslatable("add_argument names %r" % (flags,))   # argparse itself refuses this
+    fields = ["flags := [%s]" % ", ".join(_ca_str(f) for f in flags)]
+    seen = set()
+    for kw in call.keywords:
+        k = kw.arg
+        if k is None or k in seen:
+            raise Untranslatable("add_argument keyword")
+        seen.add(k)
+        v = kw.value
+        if k in _CA_TEXT_ONLY:
+            continue
+        if k == "dest":
+            if not (isinstance(v, ast.Constant) and isinstance(v.value, str)):
+                raise Untranslatable("dest=%s" % ast.dump(v)[:60])
+            fields.append("dest := some %s" % _ca_str(v.value))
+        elif k == "default":
+            fields.append("default := some (%s)" % _ca_lit(v, imports))
+        elif k == "action":
+            if not (isinstance(v, ast.Constant) and isinstance(v.value, str)):
+                raise Untranslatable("action=%s" % ast.dump(v)[:60])
+            fields.append("action := some %s" % _ca_str(v.value))
+        elif k == "nargs":
+            if not (isinstance(v, ast.Constant) and isinstance(v.value, (int, str)) and not isinstance(v.value, bool)):
+                raise Untranslatable("nargs=%s" % ast.dump(v)[:60])
+            fields.append("nargs := some %s" % _ca_str(str(v.value)))
+        elif k == "type":
+            if not (isinstance(v, ast.Name) and v.id in ("int", "str", "float") and v.id not in imports):
+                raise Untranslatable("type=%s" % ast.dump(v)[:60])
+            fields.append("type := some %s" % _ca_str(v.id))
+        elif k == "required":
+            if not (isinstance(v, ast.Constant) and isinstance(v.value, bool)):
+                raise Untranslatable("required=%s" % ast.dump(v)[:60])
+            fields.append("required := some %s" % ("true" if v.value else "false"))
+        else:
+            raise Untranslatable("add_argument keyword %s" % k)      # choices, const, …: meaning not modelled
+    return "{ " + ", ".join(fields) + " }"
+
+
+def _ca_add_argument_calls(stmts, parser, imports, where):
+    """the `add_argument` calls among `stmts` (directly on `parser` or through an alias `x = parser.add_argument`), in order;
+    any other statement is refused"""
+    aliases = set()
+    decls = []
+    for st in stmts:
+        if (isinstance(st, ast.Assign) and len(st.targets) == 1 and isinstance(st.targets[0], ast.Name)
+                and isinstance(st.value, ast.Attribute) and isinstance(st.value.value, ast.Name)
+                and st.value.value.id == parser and st.value.attr == "add_argument" and st.targets[0].id != parser):
+            aliases.add(st.targets[0].id)
+            continue
+        if isinstance(st, ast.Expr) and isinstance(st.value, ast.Call):
+            f = st.value.func
+            if ((isinstance(f, ast.Name) and f.id in aliases)
+                    or (isinstance(f, ast.Attribute) and isinstance(f.value, ast.Name) and f.value.id == parser and f.attr == "add_argument")):
+                decls.append(_ca_decl(st.value, imports))
+                continue
+        if isinstance(st, ast.Pass):
+            continue
+        raise Untranslatable("%s: statement %s" % (where, ast.unparse(st)[:70]))
+    return decls
+
+
+class _CaValidate:
+    """`validate(args, parser)`: tests on attributes of `args`, `parser.error(msg)`, `return`"""
+
+    def __init__(self, fn, imports):
+        self.args, self.parser = _ca_plain_params(fn, 2)
+        self.imports = imports
+        self.fn = fn
+
+    def value(self, e):
+        if isinstance(e, ast.Attribute) and isinstance(e.value, ast.Name) and e.value.id == self.args:
+            return "(attr ns %s)" % _ca_str(e.attr)
+        if isinstance(e, (ast.Constant, ast.List)):
+            return "(pure (%s))" % _ca_lit(e, self.imports)
+        raise Untranslatable("validate: value %s" % ast.unparse(e)[:70])
+
+    def test(self, e):
+        if isinstance(e, ast.BoolOp):
+            f = "andM" if isinstance(e.op, ast.And) else "orM"
+            out = self.test(e.values[-1])
+            for v in reversed(e.values[:-1]):
+                out = "(%s %s %s)" % (f, self.test(v), out)
+            return out
+        if isinstance(e, ast.UnaryOp) and isinstance(e.op, ast.Not):
+            return "(notM %s)" % self.test(e.operand)
+        if isinstance(e, ast.Compare) and len(e.ops) == 1:
+            op, r = e.ops[0], e.comparators[0]
+            if isinstance(op, (ast.In, ast.NotIn)) and isinstance(r, (ast.List, ast.Tuple, ast.Set)):
+                t = "(inM %s [%s])" % (self.value(e.left), ", ".join(_ca_lit(x, self.imports) for x in r.elts))
+                return t if isinstance(op, ast.In) else "(notM %s)" % t
+            if isinstance(op, (ast.Is, ast.IsNot)) and isinstance(r, ast.Constant) and r.value is None:
+                t = "(isNoneM %s)" % self.value(e.left)
+                return t if isinstance(op, ast.Is) else "(notM %s)" % t
+            if isinstance(op, (ast.Eq, ast.NotEq)):
+                t = "(eqM %s %s)" % (self.value(e.left), self.value(r))
+                return t if isinstance(op, ast.Eq) else "(notM %s)" % t
+            raise Untranslatable("validate: comparison %s" % ast.unparse(e)[:70])
+        if isinstance(e, ast.Constant) and isinstance(e.value, bool):
+            return "(pure %s)" % ("true" if e.value else "false")
+        return "(truthyM %s)" % self.value(e)
+
+    def block(self, stmts, ind):
+        pad = " " * ind
+        if not stmts:
+            return pad + "(.ok none)"
+        st, rest = stmts[0], stmts[1:]
+        if isinstance(st, ast.Pass):
+            return self.block(rest, ind)
+        if isinstance(st, ast.Return):
+            if st.value is not None and not isinstance(st.value, ast.Constant):
+                raise Untranslatable("validate: return %s" % ast.unparse(st.value)[:60])
+            return pad + "(.ok none)"        # the value is not looked at by `__main__`
+        if (isinstance(st, ast.Expr) and isinstance(st.value, ast.Call) and isinstance(st.value.func, ast.Attribute)
+                and isinstance(st.value.func.value, ast.Name) and st.value.func.value.id == self.parser
+                and st.value.func.attr == "error" and len(st.value.args) == 1 and not st.value.keywords
+                and isinstance(st.value.args[0], ast.Constant) and isinstance(st.value.args[0].value, str)):
+            return pad + "(.ok (some %s))" % _ca_str(st.value.args[0].value)     # `error` does not come back
+        if isinstance(st, ast.If):
+            return "%s(ifM %s\n%s\n%s)" % (pad, self.test(st.test), self.block(st.body + rest, ind + 2), self.block(st.orelse + rest, ind + 2))
+        raise Untranslatable("validate: statement %s" % ast.unparse(st)[:70])
+
+    def lean(self):
+        return self.block(_ca_nodoc(self.fn.body), 2)
+
+
+def _ca_module_main(mod, fn):
+    """`def main(args): f(**vars(args))` -> (f, [(parameter of f, has a default)])"""
+    (a,) = _ca_plain_params(fn, 1)
+    body = _ca_nodoc(fn.body)
+    if len(body) == 1 and isinstance(body[0], ast.Return) and body[0].value is not None:
+        call = body[0].value
+    elif len(body) == 1 and isinstance(body[0], ast.Expr):
+        call = body[0].value
+    else:
+        raise Untranslatable("main: body")
+    if not (isinstance(call, ast.Call) and isinstance(call.func, ast.Name) and not call.args and len(call.keywords) == 1
+            and call.keywords[0].arg is None):
+        raise Untranslatable("main: %s" % ast.unparse(call)[:70])
+    v = call.keywords[0].value
+    if not (isinstance(v, ast.Call) and isinstance(v.func, ast.Name) and v.func.id == "vars" and len(v.args) == 1 and not v.keywords
+            and isinstance(v.args[0], ast.Name) and v.args[0].id == a):
+        raise Untranslatable("main: keyword arguments %s" % ast.unparse(v)[:70])
+    entry = find_func(mod, call.func.id)
+    ea = entry.args
+    if ea.posonlyargs or ea.vararg or ea.kwarg:
+        raise Untranslatable("%s: parameter kinds" % entry.name)
+    nd = len(ea.args) - len(ea.defaults)
+    params = [(x.arg, i >= nd) for i, x in enumerate(ea.args)]
+    params += [(x.arg, d is not None) for x, d in zip(ea.kwonlyargs, ea.kw_defaults)]
+    return entry.name, params
+
+
+def _ca_cli_module(name):
+    _, src = src_of("gaftools/cli/%s.py" % name)
+    mod = ast.parse(src)
+    imports = _ca_imports(mod)
+    fns = {n.name: n for n in mod.body if isinstance(n, ast.FunctionDef)}
+    if len(fns) != len([n for n in mod.body if isinstance(n, ast.FunctionDef)]):
+        raise Untranslatable("%s: a function is defined twice" % name)
+    for n in mod.body:       # the three names must be plain module-level functions, nothing else may bind them
+        if isinstance(n, (ast.Assign, ast.AnnAssign, ast.AugAssign, ast.ClassDef, ast.If, ast.Try, ast.For, ast.While, ast.With)):
+            bound = {x.id for x in ast.walk(n) if isinstance(x, ast.Name) and isinstance(x.ctx, ast.Store)}
+            if isinstance(n, ast.ClassDef):
+                bound = {n.name}
+            if bound & {"add_arguments", "validate", "main"}:
+                raise Untranslatable("%s: %s bound outside a def" % (name, sorted(bound)))
+    for k, v in imports.items():
+        if k in ("add_arguments", "validate", "main"):
+            raise Untranslatable("%s: %s is imported" % (name, k))
+    if "add_arguments" not in fns or "main" not in fns:
+        raise Untranslatable("%s: add_arguments / main missing" % name)
+    aa = fns["add_arguments"]
+    (p,) = _ca_plain_params(aa, 1)
+    decls = _ca_add_argument_calls(_ca_nodoc(aa.body), p, imports, "%s.add_arguments" % name)
+    val = _CaValidate(fns["validate"], imports).lean() if "validate" in fns else None
+    entry, params = _ca_module_main(mod, fns["main"])
+    return decls, val, entry, params
+
+
+def _ca_is(e, text):
+    return ast.unparse(e) == text
+
+
+class _CaMain:
+    """`__main__.main`"""
+
+    def __init__(self, mod):
+        self.mod = mod
+        self.imports = _ca_imports(mod)
+        self.fn = find_func(mod, "main")
+        self.helpers = {n.name for n in mod.body if isinstance(n, ast.FunctionDef)}
+        self.parser = self.subparsers = self.iter = self.args = None
+        self.pkg_alias = None
+        self.top = []
+        self.top_add_help = True
+        self.sub_add_help = True
+        self.set_defaults = None
+        self.loop_seen = False
+        a = self.fn.args
+        if a.posonlyargs or a.vararg or a.kwarg or a.kwonlyargs or len(a.args) != 1 or len(a.defaults) != 1:
+            raise Untranslatable("__main__.main: parameters")
+        self.argv = a.args[0].arg
+        if not _ca_is(a.defaults[0], "sys.argv[1:]") or self.imports.get("sys") != "sys":
+            raise Untranslatable("__main__.main: default of %s" % self.argv)
+
+    # -- before parse_args
+    def parser_kwargs(self, call, what):
+        add_help = True
+        for kw in call.keywords:
+            if kw.arg in ("description", "prog", "help", "epilog", "usage"):
+                continue
+            if kw.arg == "add_help" and isinstance(kw.value, ast.Constant) and isinstance(kw.value.value, bool):
+                add_help = kw.value.value
+                continue
+            raise Untranslatable("%s: keyword %s" % (what, kw.arg))
+        return add_help
+
+    def head(self, stmts):
+        """consumes the statements up to and including `args = parser.parse_args(argv)`; returns the rest"""
+        for i, st in enumerate(stmts):
+            if isinstance(st, ast.Expr) and isinstance(st.value, ast.Call) and isinstance(st.value.func, ast.Name) \
+                    and st.value.func.id in self.helpers and not st.value.args and not st.value.keywords and self.parser is None:
+                continue                                   # `ensure_version()`: outside this layer
+            if isinstance(st, ast.Assign) and len(st.targets) == 1 and isinstance(st.targets[0], ast.Name) and isinstance(st.value, ast.Call):
+                tgt, call = st.targets[0].id, st.value
+                f = ast.unparse(call.func)
+                if self.parser is None and isinstance(call.func, ast.Name) and not call.args:
+                    if self.imports.get(call.func.id) != (".args", "HelpfulArgumentParser"):
+                        raise Untranslatable("__main__.main: the parser is a %s" % f)
+                    self.top_add_help = self.parser_kwargs(call, "the top-level parser")
+                    self.parser = tgt
+                    continue
+                if self.parser and f == self.parser + ".add_subparsers" and not call.args and not call.keywords and self.subparsers is None:
+                    self.subparsers = tgt
+                    continue
+                if f == "pkgutil.iter_modules" and self.imports.get("pkgutil") == "pkgutil" and len(call.args) == 1 and not call.keywords \
+                        and isinstance(call.args[0], ast.Attribute) and isinstance(call.args[0].value, ast.Name) \
+                        and call.args[0].attr == "__path__" and self.imports.get(call.args[0].value.id) == "gaftools.cli" and self.iter is None:
+                    self.iter = tgt
+                    self.pkg_alias = call.args[0].value.id
+                    continue
+                if self.parser and f == self.parser + ".parse_args" and len(call.args) == 1 and not call.keywords \
+                        and isinstance(call.args[0], ast.Name) and call.args[0].id == self.argv:
+                    if not self.loop_seen:
+                        raise Untranslatable("__main__.main: parse_args before the sub-parsers are built")
+                    self.args = tgt
+                    return stmts[i + 1:]
+                raise Untranslatable("__main__.main: %s" % ast.unparse(st)[:70])
+            if isinstance(st, ast.Expr) and isinstance(st.value, ast.Call) and self.parser and not self.loop_seen \
+                    and ast.unparse(st.value.func) == self.parser + ".add_argument":
+                if self.subparsers is not None:
+                    raise Untranslatable("__main__.main: a top-level argument after add_subparsers")   # a positional there would come after the sub-command
+                self.top.append(_ca_decl(st.value, self.imports))
+                continue
+            if isinstance(st, ast.For) and self.iter and self.subparsers and not self.loop_seen and not st.orelse:
+                self.module_loop(st)
+                self.loop_seen = True
+                continue
+            raise Untranslatable("__main__.main: %s" % ast.unparse(st)[:70])
+        raise Untranslatable("__main__.main: no parse_args")
+
+    def module_loop(self, loop):
+        t = loop.target
+        if not (isinstance(t, ast.Tuple) and len(t.elts) == 3 and all(isinstance(x, ast.Name) for x in t.elts)
+                and isinstance(loop.iter, ast.Name) and loop.iter.id == self.iter):
+            raise Untranslatable("the module loop: %s" % ast.unparse(loop)[:70])
+        name = t.elts[1].id           # ModuleInfo(module_finder, name, ispkg)
+        if name in (t.elts[0].id, t.elts[2].id) and t.elts[0].id != t.elts[2].id:
+            raise Untranslatable("the module loop: target")
+        modvar = subvar = None
+        added = False
+        for st in loop.body:
+            if isinstance(st, ast.Assign) and len(st.targets) == 1 and isinstance(st.targets[0], ast.Name) and isinstance(st.value, ast.Call):
+                tgt, call = st.targets[0].id, st.value
+                f = ast.unparse(call.func)
+                if f == "importlib.import_module" and self.imports.get("importlib") == "importlib" and len(call.args) == 2 and not call.keywords \
+                        and _ca_is(call.args[0], "'.' + %s" % name) and _ca_is(call.args[1], "%s.__name__" % self.pkg_alias) \
+                        and modvar is None and subvar is None:
+                    modvar = tgt
+                    continue
+                if f == self.subparsers + ".add_parser" and len(call.args) == 1 and _ca_is(call.args[0], name) and subvar is None and modvar:
+                    self.sub_add_help = self.parser_kwargs(call, "add_parser")
+                    subvar = tgt
+                    continue
+            if isinstance(st, ast.Expr) and isinstance(st.value, ast.Call) and modvar and subvar:
+                call = st.value
+                f = ast.unparse(call.func)
+                if f == subvar + ".set_defaults" and not call.args and self.set_defaults is None and not added:
+                    out = []
+                    for kw in call.keywords:
+                        if kw.arg is None or not isinstance(kw.value, ast.Name) or kw.value.id not in (modvar, subvar):
+                            raise Untranslatable("set_defaults: %s" % ast.unparse(call)[:70])
+                        out.append("(%s, .%s module_name)" % (_ca_str(kw.arg), "moduleObj" if kw.value.id == modvar else "parserObj"))
+                    self.set_defaults = out
+                    continue
+                if f == modvar + ".add_arguments" and len(call.args) == 1 and not call.keywords and _ca_is(call.args[0], subvar) and not added:
+                    added = True
+                    continue
+            raise Untranslatable("the module loop: %s" % ast.unparse(st)[:70])
+        if not (added and self.set_defaults is not None):
+            raise Untranslatable("the module loop: add_arguments / set_defaults missing")
+        if len({modvar, subvar, name, self.parser, self.subparsers}) != 5:
+            raise Untranslatable("the module loop: names")
+
+    # -- after parse_args
+    def ref(self, e):
+        if isinstance(e, ast.Attribute) and isinstance(e.value, ast.Name) and e.value.id == self.args:
+            return "(.attr %s)" % _ca_str(e.attr)
+        if isinstance(e, ast.Name) and e.id in self.locals:
+            return "(.loc %s)" % _ca_str(e.id)
+        raise Untranslatable("__main__.main: %s is neither an attribute of the namespace nor a local bound to one" % ast.unparse(e)[:50])
+
+    def is_error(self, st):
+        return (isinstance(st, ast.Expr) and isinstance(st.value, ast.Call) and _ca_is(st.value.func, self.parser + ".error")
+                and len(st.value.args) == 1 and not st.value.keywords and isinstance(st.value.args[0], ast.Constant)
+                and isinstance(st.value.args[0].value, str))
+
+    def hasattr_of(self, e):
+        """`hasattr(X, "name")` -> (X, name)"""
+        if (isinstance(e, ast.Call) and isinstance(e.func, ast.Name) and e.func.id == "hasattr" and len(e.args) == 2 and not e.keywords
+                and isinstance(e.args[1], ast.Constant) and isinstance(e.args[1].value, str)):
+            return e.args[0], e.args[1].value
+        return None
+
+    def tail(self, stmts, ind):
+        """statements -> Lean `Step` terms"""
+        pad = " " * ind
+        out = []
+        for k, st in enumerate(stmts):
+            if isinstance(st, ast.Pass):
+                continue
+            # f(args.a) for a helper of this module
+            if (isinstance(st, ast.Expr) and isinstance(st.value, ast.Call) and isinstance(st.value.func, ast.Name)
+                    and st.value.func.id in self.helpers and st.value.func.id not in self.locals and len(st.value.args) == 1
+                    and not st.value.keywords and isinstance(st.value.args[0], ast.Attribute)
+                    and isinstance(st.value.args[0].value, ast.Name) and st.value.args[0].value.id == self.args):
+                out.append(pad + ".readAttr %s" % _ca_str(st.value.args[0].attr))
+                continue
+            if isinstance(st, ast.If):
+                t = st.test
+                neg = isinstance(t, ast.UnaryOp) and isinstance(t.op, ast.Not)
+                h = self.hasattr_of(t.operand if neg else t)
+                if h is None:
+                    raise Untranslatable("__main__.main: test %s" % ast.unparse(t)[:70])
+                obj, nm = h
+                if isinstance(obj, ast.Name) and obj.id == self.args:
+                    # `parser.error` ends the process: the other branch is what follows
+                    if neg and len(st.body) == 1 and self.is_error(st.body[0]):
+                        out.append(pad + ".requireAttr %s %s" % (_ca_str(nm), _ca_str(st.body[0].value.args[0].value)))
+                        out += self.tail(st.orelse, ind)
+                        continue
+                    if not neg and len(st.orelse) == 1 and self.is_error(st.orelse[0]):
+                        out.append(pad + ".requireAttr %s %s" % (_ca_str(nm), _ca_str(st.orelse[0].value.args[0].value)))
+                        out += self.tail(st.body, ind)
+                        continue
+                    raise Untranslatable("__main__.main: %s" % ast.unparse(st)[:70])
+                if not neg and not st.orelse:
+                    r = self.ref(obj)
+                    saved = dict(self.locals)
+                    body = self.tail(st.body, ind + 4)
+                    if set(self.locals) != set(saved) and any(
+                            isinstance(x, ast.Name) and x.id in set(self.locals) - set(saved) for s2 in stmts[k + 1:] for x in ast.walk(s2)):
+                        raise Untranslatable("__main__.main: a local bound under a condition is used after it")
+                    self.locals = saved
+                    out.append(pad + ".ifHas %s %s [\n%s]" % (r, _ca_str(nm), ",\n".join(body)))
+                    continue
+                raise Untranslatable("__main__.main: %s" % ast.unparse(st)[:70])
+            if (isinstance(st, ast.Assign) and len(st.targets) == 1 and isinstance(st.targets[0], ast.Name)
+                    and isinstance(st.value, ast.Attribute) and isinstance(st.value.value, ast.Name) and st.value.value.id == self.args):
+                x = st.targets[0].id
+                if x in (self.args, self.parser, self.subparsers, self.argv):
+                    raise Untranslatable("__main__.main: assignment to %s" % x)
+                self.locals[x] = st.value.attr
+                out.append(pad + ".bind %s %s" % (_ca_str(x), _ca_str(st.value.attr)))
+                continue
+            if isinstance(st, ast.Delete):
+                for tg in st.targets:
+                    if not (isinstance(tg, ast.Attribute) and isinstance(tg.value, ast.Name) and tg.value.id == self.args):
+                        raise Untranslatable("__main__.main: %s" % ast.unparse(st)[:70])
+                    out.append(pad + ".del %s" % _ca_str(tg.attr))
+                continue
+            if (isinstance(st, ast.Expr) and isinstance(st.value, ast.Call) and isinstance(st.value.func, ast.Attribute)
+                    and len(st.value.args) == 2 and not st.value.keywords and isinstance(st.value.args[0], ast.Name)
+                    and st.value.args[0].id == self.args):
+                out.append(pad + ".callMethod %s %s %s" % (self.ref(st.value.func.value), _ca_str(st.value.func.attr), self.ref(st.value.args[1])))
+                continue
+            if isinstance(st, ast.Try) and not st.orelse and not st.finalbody and len(st.handlers) == 1 and len(st.body) == 1:
+                b, h = st.body[0], st.handlers[0]
+                if not (isinstance(b, ast.Expr) and isinstance(b.value, ast.Call) and isinstance(b.value.func, ast.Attribute)
+                        and b.value.func.attr == "main" and len(b.value.args) == 1 and not b.value.keywords
+                        and isinstance(b.value.args[0], ast.Name) and b.value.args[0].id == self.args):
+                    raise Untranslatable("__main__.main: %s" % ast.unparse(b)[:70])
+                if not (isinstance(h.type, ast.Name) and self.imports.get(h.type.id) == (".cli", h.type.id) and h.body):
+                    raise Untranslatable("__main__.main: except %s" % (ast.unparse(h.type) if h.type else ""))
+                last = h.body[-1]
+                if not (isinstance(last, ast.Expr) and isinstance(last.value, ast.Call) and _ca_is(last.value.func, "sys.exit")
+                        and len(last.value.args) == 1 and isinstance(last.value.args[0], ast.Constant)
+                        and isinstance(last.value.args[0].value, int) and not isinstance(last.value.args[0].value, bool)
+                        and last.value.args[0].value >= 0):
+                    raise Untranslatable("__main__.main: the handler does not end with sys.exit(n)")
+                for s2 in h.body[:-1]:        # logging only
+                    if not (isinstance(s2, ast.Expr) and isinstance(s2.value, ast.Call) and isinstance(s2.value.func, ast.Attribute)
+                            and isinstance(s2.value.func.value, ast.Name) and s2.value.func.value.id == "logger"):
+                        raise Untranslatable("__main__.main: handler statement %s" % ast.unparse(s2)[:60])
+                out.append(pad + ".callMain %s %s %d" % (self.ref(b.value.func.value), _ca_str(h.type.id), last.value.args[0].value))
+                if [s2 for s2 in stmts[k + 1:] if not isinstance(s2, ast.Pass)]:
+                    raise Untranslatable("__main__.main: statements after the call of the entry point")
+                continue
+            raise Untranslatable("__main__.main: %s" % ast.unparse(st)[:70])
+        return out
+
+    def run(self):
+        rest = self.head(_ca_nodoc(self.fn.body))
+        if len({self.parser, self.subparsers, self.iter, self.args, self.argv}) != 5:
+            raise Untranslatable("__main__.main: names")
+        self.locals = {}
+        steps = self.tail(rest, 2)
+        return steps
+
+
+def _ca_error_status():
+    """gaftools/args.py: `HelpfulArgumentParser.error` ends with `self.exit(<n>, …)`"""
+    _, src = src_of("gaftools/args.py")
+    mod = ast.parse(src)
+    imports = _ca_imports(mod)
+    cls = [n for n in mod.body if isinstance(n, ast.ClassDef) and n.name == "HelpfulArgumentParser"]
+    if len(cls) != 1 or len(cls[0].bases) != 1 or not isinstance(cls[0].bases[0], ast.Name) \
+            or imports.get(cls[0].bases[0].id) != ("argparse", "ArgumentParser") or cls[0].keywords:
+        raise Untranslatable("args.py: HelpfulArgumentParser is not a plain subclass of argparse.ArgumentParser")
+    methods = {n.name for n in cls[0].body if isinstance(n, ast.FunctionDef)}
+    if not methods <= {"__init__", "error"} or len(methods) != len([n for n in cls[0].body if not (isinstance(n, ast.Expr) and isinstance(n.value, ast.Constant))]):
+        raise Untranslatable("args.py: HelpfulArgumentParser overrides %s" % sorted(methods))
+    if "__init__" in methods:
+        init = find_func(mod, "__init__", cls="HelpfulArgumentParser")
+        want = ["if 'formatter_class' not in kwargs:\n    kwargs['formatter_class'] = RawDescriptionHelpFormatter", "super().__init__(*args, **kwargs)"]
+        if [ast.unparse(x) for x in _ca_nodoc(init.body)] != want:
+            raise Untranslatable("args.py: HelpfulArgumentParser.__init__ does more than choose the help formatter")
+    if "error" not in methods:
+        return 2           # argparse's own `error`: `self.exit(2, …)`
+    err = find_func(mod, "error", cls="HelpfulArgumentParser")
+    params = _ca_plain_params(err, 2)
+    last = _ca_nodoc(err.body)[-1]
+    for st in _ca_nodoc(err.body)[:-1]:
+        if any(isinstance(x, (ast.Return, ast.Raise, ast.Try, ast.If, ast.While, ast.For)) for x in ast.walk(st)):
+            raise Untranslatable("args.py: error: control flow before the exit")
+    if not (isinstance(last, ast.Expr) and isinstance(last.value, ast.Call) and _ca_is(last.value.func, params[0] + ".exit")
+            and last.value.args and isinstance(last.value.args[0], ast.Constant) and isinstance(last.value.args[0].value, int)
+            and not isinstance(last.value.args[0].value, bool) and last.value.args[0].value >= 0):
+        raise Untranslatable("args.py: error does not end with self.exit(n, …)")
+    return last.value.args[0].value
+
+
+def _ca_ident(name):
+    if not name.isidentifier() or not name.isascii():
+        raise Untranslatable("module name %r" % name)
+    return name
+
+
+def _gen_cli_args():
+    _, src = src_of("gaftools/__main__.py")
+    main = _CaMain(ast.parse(src))
+    steps = main.run()
+    status = _ca_error_status()
+    # what `pkgutil.iter_modules(gaftools.cli.__path__)` yields: the importable entries of the directory, sorted by file name
+    d = os.path.join(REPO, "gaftools", "cli")
+    names = []
+    for f in sorted(os.listdir(d)):
+        p = os.path.join(d, f)
+        if os.path.isdir(p):
+            if f == "__pycache__" or "." in f:
+                continue
+            if any(os.path.exists(os.path.join(p, x)) for x in ("__init__.py",)):
+                raise Untranslatable("gaftools/cli/%s is a package" % f)
+            continue
+        base, ext = os.path.splitext(f)
+        if ext != ".py":
+            if ext in (".pyc", ".so", ".pyd"):
+                raise Untranslatable("gaftools/cli/%s: a module without source" % f)
+            continue
+        if base == "__init__":
+            continue
+        names.append(_ca_ident(base))
+    if not names:
+        raise Untranslatable("gaftools/cli has no module")
+    out = [CLIARGS_PRELUDE % (
+        "generated by harness/translate.py from gaftools/__main__.py : main, gaftools/args.py : HelpfulArgumentParser.error and, of every\n"
+        "    module of gaftools/cli, add_arguments / validate / main — declaration by declaration, test by test, statement by statement;\n"
+        "    do not edit")]
+    recs = []
+    for name in names:
+        decls, val, entry, params = _ca_cli_module(name)
+        out.append("/-- `gaftools/cli/%s.py add_arguments` -/\ndef arguments_%s : List ArgDecl := [\n%s]\n" % (
+            name, name, ",\n".join("  " + x for x in decls)))
+        if val is not None:
+            out.append("/-- `gaftools/cli/%s.py validate` -/\ndef validate_%s (ns : Ns) : VRes :=\n%s\n" % (name, name, val))
+        out.append("/-- `gaftools/cli/%s.py main` and the parameters of the function it calls -/\n"
+                   "def module_%s : Module :=\n  { name := %s, arguments := arguments_%s, validate := %s,\n    entry := %s,\n    entryParams := [%s] }\n" % (
+                       name, name, _ca_str(name), name, ("some validate_%s" % name) if val is not None else "none", _ca_str(entry),
+                       ", ".join("(%s, %s)" % (_ca_str(p), "true" if d else "false") for p, d in params)))
+        recs.append("module_%s" % name)
+    out.append("/-- the modules of `gaftools/cli`, in the order of `pkgutil.iter_modules` (sorted file names) -/\n"
+               "def modules : List Module := [%s]\n" % ", ".join(recs))
+    out.append("/-- `import gaftools.cli as …`: the package the modules are imported from -/\ndef cliPackage : String := \"gaftools.cli\"\n")
+    out.append("/-- the `add_argument` calls of `__main__.main` on the top-level parser -/\ndef topArguments : List ArgDecl := [\n%s]\n" % (
+        ",\n".join("  " + x for x in main.top)))
+    out.append("/-- `add_help` of the top-level parser and of the sub-parsers (argparse adds `-h`, `--help` first) -/\n"
+               "def topAddHelp : Bool := %s\ndef subAddHelp : Bool := %s\n" % ("true" if main.top_add_help else "false", "true" if main.sub_add_help else "false"))
+    out.append("/-- `subparser.set_defaults(…)` in the module loop -/\ndef setDefaults (module_name : String) : Ns := [%s]\n" % ", ".join(main.set_defaults))
+    out.append("/-- `HelpfulArgumentParser.error`: the exit status -/\ndef parserErrorStatus : Nat := %d\n" % status)
+    out.append("/-- `__main__.main` after `%s = %s.parse_args(%s)` -/\ndef mainTail : List Step := [\n%s]\n" % (
+        main.args, main.parser, main.argv, ",\n".join(steps)))
+    out.append("/-- `__main__.main` from the namespace `parse_args` returned -/\n"
+               "def runMain (args : Ns) : Outcome :=\n"
+               "  match runSteps cliPackage modules mainTail { args := args, locals := [] } with\n"
+               "  | .ok _ => .returned\n  | .error o => o\n")
+    out.append("end Gaftools.Gen.CliArgs\n")
+    return "\n".join(out)
+
+
+def gen_cli_args():
+    try:
+        return _gen_cli_args()
+    except Untranslatable:
+        raise
+    except Exception as e:  # a shape the translator did not foresee is never an alarm
+        raise Untranslatable("translator: %s: %s" % (type(e).__name__, e))
+
+
+GENERATORS["CliArgs"] = gen_cli_args
+
+
+# ---------------------------------------------------------------------------------------------------------
 # sort.process_alignment as a whole function and the first pass of sort.sort up to `list.sort`, statement by statement (C08, C09)
 
 _SP_PRELUDE = r"""/-! ## the Python primitives the translation refers to -/
@@ -14389,6 +15172,193 @@ FALLBACK["PhaseTsv"] = PHASE_TSV_HEADER % (
   | some new_cigar =>
   some new_cigar""",
     "def isFileGzipped (bytes : List UInt8) : Bool := (bytes.take 2 == [0x1f, 0x8b])")
+
+FALLBACK["CliArgs"] = CLIARGS_PRELUDE % (
+    "FALLBACK (source construct outside the translator's subset): a frozen copy of the translation of __main__.main,\n"
+    "    HelpfulArgumentParser.error and the add_arguments / validate / main of the modules of gaftools/cli as the source stood when\n"
+    "    `Props/TieA26.lean` was written") + "\n" + r'''/-- `gaftools/cli/find_path.py add_arguments` -/
+def arguments_find_path : List ArgDecl := [
+  { flags := ["gfa_path"] },
+  { flags := ["input_path"] },
+  { flags := ["-o", "--output"], default := some (.none) },
+  { flags := ["-f", "--fasta"], action := some "store_true" }]
+
+/-- `gaftools/cli/find_path.py validate` -/
+def validate_find_path (ns : Ns) : VRes :=
+  (.ok none)
+
+/-- `gaftools/cli/find_path.py main` and the parameters of the function it calls -/
+def module_find_path : Module :=
+  { name := "find_path", arguments := arguments_find_path, validate := some validate_find_path,
+    entry := "run",
+    entryParams := [("gfa_path", false), ("input_path", false), ("output", true), ("fasta", true)] }
+
+/-- `gaftools/cli/index.py add_arguments` -/
+def arguments_index : List ArgDecl := [
+  { flags := ["gaf_path"] },
+  { flags := ["gfa_path"] },
+  { flags := ["-o", "--output"], default := some (.none) }]
+
+/-- `gaftools/cli/index.py validate` -/
+def validate_index (ns : Ns) : VRes :=
+  (.ok none)
+
+/-- `gaftools/cli/index.py main` and the parameters of the function it calls -/
+def module_index : Module :=
+  { name := "index", arguments := arguments_index, validate := some validate_index,
+    entry := "run",
+    entryParams := [("gaf_path", false), ("gfa_path", false), ("output", true)] }
+
+/-- `gaftools/cli/order_gfa.py add_arguments` -/
+def arguments_order_gfa : List ArgDecl := [
+  { flags := ["--chromosome_order"], default := some (.str "") },
+  { flags := ["--with-sequence"], default := some (.bool false), action := some "store_true" },
+  { flags := ["gfa_filename"] },
+  { flags := ["--outdir"], default := some (.str "./out") },
+  { flags := ["--by-chrom"], default := some (.bool false), action := some "store_true" }]
+
+/-- `gaftools/cli/order_gfa.py main` and the parameters of the function it calls -/
+def module_order_gfa : Module :=
+  { name := "order_gfa", arguments := arguments_order_gfa, validate := none,
+    entry := "run_order_gfa",
+    entryParams := [("gfa_filename", false), ("outdir", false), ("by_chrom", false), ("chromosome_order", true), ("with_sequence", true)] }
+
+/-- `gaftools/cli/phase.py add_arguments` -/
+def arguments_phase : List ArgDecl := [
+  { flags := ["gaf_file"] },
+  { flags := ["tsv_file"] },
+  { flags := ["-o", "--output"], default := some (.stdoutObject) }]
+
+/-- `gaftools/cli/phase.py validate` -/
+def validate_phase (ns : Ns) : VRes :=
+  (.ok none)
+
+/-- `gaftools/cli/phase.py main` and the parameters of the function it calls -/
+def module_phase : Module :=
+  { name := "phase", arguments := arguments_phase, validate := some validate_phase,
+    entry := "run",
+    entryParams := [("gaf_file", false), ("tsv_file", false), ("output", true)] }
+
+/-- `gaftools/cli/realign.py add_arguments` -/
+def arguments_realign : List ArgDecl := [
+  { flags := ["gaf"] },
+  { flags := ["graph"] },
+  { flags := ["fasta"] },
+  { flags := ["-o", "--output"], default := some (.none) },
+  { flags := ["-c", "--cores"], default := some (.int (1)), type := some "int" }]
+
+/-- `gaftools/cli/realign.py main` and the parameters of the function it calls -/
+def module_realign : Module :=
+  { name := "realign", arguments := arguments_realign, validate := none,
+    entry := "run_realign",
+    entryParams := [("gaf", false), ("graph", false), ("fasta", false), ("output", true), ("cores", true)] }
+
+/-- `gaftools/cli/sort.py add_arguments` -/
+def arguments_sort : List ArgDecl := [
+  { flags := ["gaf"] },
+  { flags := ["gfa"] },
+  { flags := ["--outgaf"], default := some (.none) },
+  { flags := ["--outind"], default := some (.none) },
+  { flags := ["--bgzip"], action := some "store_true" }]
+
+/-- `gaftools/cli/sort.py validate` -/
+def validate_sort (ns : Ns) : VRes :=
+  (ifM (andM (truthyM (attr ns "bgzip")) (notM (truthyM (attr ns "outgaf"))))
+    (.ok (some "--bgzip flag has been specified but not output path has been defined. Please define the output path."))
+    (ifM (andM (truthyM (attr ns "outind")) (notM (truthyM (attr ns "outgaf"))))
+      (.ok (some "index path specified but no output gaf path. Please provide an output path."))
+      (.ok none)))
+
+/-- `gaftools/cli/sort.py main` and the parameters of the function it calls -/
+def module_sort : Module :=
+  { name := "sort", arguments := arguments_sort, validate := some validate_sort,
+    entry := "run_sort",
+    entryParams := [("gfa", false), ("gaf", false), ("outgaf", true), ("outind", true), ("bgzip", true)] }
+
+/-- `gaftools/cli/stat.py add_arguments` -/
+def arguments_stat : List ArgDecl := [
+  { flags := ["gaf_path"] },
+  { flags := ["-o", "--output"], default := some (.none) },
+  { flags := ["--cigar"], dest := some "cigar_stat", default := some (.bool false), action := some "store_true" }]
+
+/-- `gaftools/cli/stat.py validate` -/
+def validate_stat (ns : Ns) : VRes :=
+  (.ok none)
+
+/-- `gaftools/cli/stat.py main` and the parameters of the function it calls -/
+def module_stat : Module :=
+  { name := "stat", arguments := arguments_stat, validate := some validate_stat,
+    entry := "run_stat",
+    entryParams := [("gaf_path", false), ("cigar_stat", true), ("output", true)] }
+
+/-- `gaftools/cli/view.py add_arguments` -/
+def arguments_view : List ArgDecl := [
+  { flags := ["gaf_path"] },
+  { flags := ["-g", "--gfa"], dest := some "gfa", default := some (.none) },
+  { flags := ["-o", "--output"], dest := some "output", default := some (.none) },
+  { flags := ["-i", "--index"], default := some (.none) },
+  { flags := ["-n", "--node"], dest := some "nodes", default := some (.list []), action := some "append" },
+  { flags := ["-r", "--region"], dest := some "regions", default := some (.list []), action := some "append" },
+  { flags := ["-f", "--format"], dest := some "format" }]
+
+/-- `gaftools/cli/view.py validate` -/
+def validate_view (ns : Ns) : VRes :=
+  (ifM (andM (truthyM (attr ns "format")) (notM (inM (attr ns "format") [.str "unstable", .str "stable"])))
+    (.ok (some "--format only accepts unstable or stable as input."))
+    (ifM (andM (truthyM (attr ns "nodes")) (truthyM (attr ns "regions")))
+      (.ok (some "provide either of the --regions and --nodes options and not both."))
+      (ifM (andM (truthyM (attr ns "format")) (notM (truthyM (attr ns "gfa"))))
+        (.ok (some "GFA file has to be provided along with --format."))
+        (.ok none))))
+
+/-- `gaftools/cli/view.py main` and the parameters of the function it calls -/
+def module_view : Module :=
+  { name := "view", arguments := arguments_view, validate := some validate_view,
+    entry := "run",
+    entryParams := [("gaf_path", false), ("gfa", true), ("output", true), ("index", true), ("nodes", true), ("regions", true), ("format", true)] }
+
+/-- the modules of `gaftools/cli`, in the order of `pkgutil.iter_modules` (sorted file names) -/
+def modules : List Module := [module_find_path, module_index, module_order_gfa, module_phase, module_realign, module_sort, module_stat, module_view]
+
+/-- `import gaftools.cli as …`: the package the modules are imported from -/
+def cliPackage : String := "gaftools.cli"
+
+/-- the `add_argument` calls of `__main__.main` on the top-level parser -/
+def topArguments : List ArgDecl := [
+  { flags := ["--version"], action := some "version" },
+  { flags := ["--debug"], action := some "store_true", default := some (.bool false) }]
+
+/-- `add_help` of the top-level parser and of the sub-parsers (argparse adds `-h`, `--help` first) -/
+def topAddHelp : Bool := true
+def subAddHelp : Bool := true
+
+/-- `subparser.set_defaults(…)` in the module loop -/
+def setDefaults (module_name : String) : Ns := [("module", .moduleObj module_name), ("subparser", .parserObj module_name)]
+
+/-- `HelpfulArgumentParser.error`: the exit status -/
+def parserErrorStatus : Nat := 2
+
+/-- `__main__.main` after `args = parser.parse_args(argv)` -/
+def mainTail : List Step := [
+  .readAttr "debug",
+  .requireAttr "module" "Please provide the name of a subcommand to run",
+  .bind "module" "module",
+  .ifHas (.attr "module") "validate" [
+      .bind "subparser" "subparser",
+      .callMethod (.attr "module") "validate" (.loc "subparser")],
+  .del "subparser",
+  .del "module",
+  .del "debug",
+  .callMain (.loc "module") "CommandLineError" 1]
+
+/-- `__main__.main` from the namespace `parse_args` returned -/
+def runMain (args : Ns) : Outcome :=
+  match runSteps cliPackage modules mainTail { args := args, locals := [] } with
+  | .ok _ => .returned
+  | .error o => o
+
+end Gaftools.Gen.CliArgs
+'''
 
 FALLBACK["SortPass"] = r'''import Gaftools.Model.Sort
 import Gaftools.Model.ConvText
